@@ -302,6 +302,7 @@ MethodsC10mask == Stray(BaseJ) \cup Stray(BaseF) \cup Stray(BaseP) \cup PerturbM
 
 \* ---- model checking of the session machine: small input space, every schedule ------------------------------------------
 CfgsM == { Cfg("gin", v, e, NoSec, <<"s1">>) : v \in {"3.0.0", "3.1.0"}, e \in BOOLEAN } \cup { Cfg("nope", "3.0.0", FALSE, NoSec, <<"s1">>) }
+         \cup { Cfg("gin", "3.1.0", FALSE, NoSec, <<"s1">>) @@ [cmd |-> c] : c \in {"spec", "routes"} }
 CtrlsM == { Ctl("p1", "f1", "AController", "/a", "A", <<>>), Ctl("p2", "f2", "BController", "/b", "B", <<S("s1", <<>>)>>), Ctl("p1", "f2", "CController", "/c", "C", <<S("s9", <<>>)>>) }
 MethodsM == { Mth("", "GET", "/x", FALSE, FALSE, <<>>), Mth("f2", "POST", "/{id}", TRUE, FALSE, <<S("s1", <<"r">>)>>),
               [Mth("", "PUT", "/{id}", FALSE, TRUE, <<>>) EXCEPT !.ret = <<"string">>] }
